@@ -1,5 +1,5 @@
-CONSTANTS MaxTok = 2
-  Alphabet = "full"
+CONSTANTS MaxTok = 3
+  Alphabet = "deep"
 INIT Init
 NEXT Next
 INVARIANT Emit
